@@ -965,17 +965,21 @@ class AttrParser(BaseParser):
                 assert len(data_values) == 1, "Fatal error in parser"
                 data_values *= type_num_values
 
-        if isinstance(type.element_type, AnyFloat):
-            new_type = cast(RankedStructure[AnyFloat], type)
-            new_data = cast(Sequence[int | float], data_values)
-            return DenseIntOrFPElementsAttr.from_list(new_type, new_data)
-        elif isinstance(type.element_type, ComplexType):
-            new_type = cast(RankedStructure[ComplexType], type)
-            return DenseIntOrFPElementsAttr.from_list(new_type, data_values)  # pyright: ignore[reportCallIssue,reportUnknownVariableType,reportArgumentType]
-        else:
-            new_type = cast(RankedStructure[IntegerType | IndexType], type)
-            new_data = cast(Sequence[int], data_values)
-            return DenseIntOrFPElementsAttr.from_list(new_type, new_data)
+        try:
+            if isinstance(type.element_type, AnyFloat):
+                new_type = cast(RankedStructure[AnyFloat], type)
+                new_data = cast(Sequence[int | float], data_values)
+                return DenseIntOrFPElementsAttr.from_list(new_type, new_data)
+            elif isinstance(type.element_type, ComplexType):
+                new_type = cast(RankedStructure[ComplexType], type)
+                return DenseIntOrFPElementsAttr.from_list(new_type, data_values)  # pyright: ignore[reportCallIssue,reportUnknownVariableType,reportArgumentType]
+            else:
+                new_type = cast(RankedStructure[IntegerType | IndexType], type)
+                new_data = cast(Sequence[int], data_values)
+                return DenseIntOrFPElementsAttr.from_list(new_type, new_data)
+        except (ValueError, OverflowError) as e:
+            # A value that does not fit the element type
+            self.raise_error(f"Invalid value in dense literal: {e}")
 
     def _parse_builtin_dense_attr(self) -> DenseIntOrFPElementsAttr:
         return self.parse_dense_int_or_fp_elements_attr(None)
